@@ -19,13 +19,32 @@ const gorumsPkg = "github.com/relab/gorums"
 
 func VerifC18(nThin, maxEvents int) {
 	w := vMixed(1, nThin, nil)
-	n := 1 + nThin
 	vQuiescent()
 	base := vLiveGoroutines(gorumsPkg)
 	vAssert(w.routersLeft() == 0, "C18.not-clean-initially")
+	kind, c, broke := fsOneCallScenario(w, nThin, maxEvents, 1)
+	vReach("calltype-" + ckNames[kind])
+	vAssert(c.issued, "C03.issue-blocked")
+	vAssert(c.returned, "C02.lingers")
+	vAssert(w.routersLeft() == 0, "C18.routing-entry-left")
+	vAssert(vLiveGoroutines(gorumsPkg) == base, "C18.goroutine-left")
+	if c.err != nil && c.ctx.Err() != nil && !ckOneWay(kind) {
+		vReach("ended-by-context")
+	}
+	if broke {
+		vReach("stream-broke")
+	}
+}
+
+// fsOneCallScenario: one call of a symbolic type on a world of 1 full-stack + nThin thin nodes,
+// with up to maxEvents environment events at scheduler-chosen points (peer reply / error reply,
+// thin node answer, cancellation, stream break), followed by late answers for everything that
+// is still outstanding; returns at quiescence with the environment frozen.
+func fsOneCallScenario(w *vWorld, nThin, maxEvents, tag int) (int, *fsCall, bool) {
+	n := 1 + nThin
 	kind := vChoice("calltype", ckN)
 	quorumOn := vChoice("quorumOn", n+1) // 0 = never
-	c := fsNewCall(kind, 1, quorumOn)
+	c := fsNewCall(kind, tag, quorumOn)
 	cfg := w.cfg
 	go c.run(w, cfg)
 	p := w.peers[0]
@@ -33,7 +52,7 @@ func VerifC18(nThin, maxEvents int) {
 	peerReplies := 0
 	broke := false
 	for step := 0; step < maxEvents; step++ {
-		ev := vChoice("event", 6)
+		ev := vChoice("event", 5)
 		switch ev {
 		case 0: // stop
 			step = maxEvents
@@ -94,8 +113,6 @@ func VerifC18(nThin, maxEvents int) {
 			}
 			broke = true
 			p.breakStreams()
-		case 5:
-			vAssume(false)
 		}
 	}
 	// every targeted node answers what it still owes, or has failed
@@ -103,6 +120,10 @@ func VerifC18(nThin, maxEvents int) {
 	vQuiescent()
 	if !ckOneWay(kind) && kind != ckCorrStream {
 		fsAnswerArrived(p, 3)
+	}
+	if ckOneWay(kind) {
+		for p.take() != nil { // one-way requests are consumed by handlers that send no reply
+		}
 	}
 	if !ckNodeLevel(kind) {
 		for i := 1; i < n; i++ {
@@ -123,17 +144,11 @@ func VerifC18(nThin, maxEvents int) {
 		c.cancel()
 	}
 	vQuiescent()
-	vReach("calltype-" + ckNames[kind])
-	vAssert(c.issued, "C03.issue-blocked")
-	vAssert(c.returned, "C02.lingers")
-	vAssert(w.routersLeft() == 0, "C18.routing-entry-left")
-	vAssert(vLiveGoroutines(gorumsPkg) == base, "C18.goroutine-left")
-	if c.err != nil && c.ctx.Err() != nil && !ckOneWay(kind) {
-		vReach("ended-by-context")
+	if kind == ckCorrStream {
+		for p.take() != nil { // the abandoned stream request
+		}
 	}
-	if broke {
-		vReach("stream-broke")
-	}
+	return kind, c, broke
 }
 
 func VerifC18Twin(nThin, maxEvents int) { VerifC18(nThin, maxEvents); vFail("C18.twin") }
